@@ -1,6 +1,6 @@
 (* C17 — Indexed table queries return exactly what a full scan would.  Property theorems only. *)
 From Coq Require Import ZArith List Bool Arith Sorting.Sorted.
-From Coba Require Import C17.Model C17.Proofs C17.ProofsIndex C17.ProofsBuild.
+From Coba Require Import C17.Model C17.Proofs C17.ProofsIndex C17.ProofsBuild C17.ProofsWhere C17.ProofsLex C17.ProofsViews C17.ProofsGroup.
 Import ListNotations.
 
 (* For EVERY operator, every argument (present or absent values, duplicates, bounds outside the
@@ -60,6 +60,54 @@ Theorem indexed_query_eq_full_scan : forall t names kw o a vs, wf_table t -> ind
   select1 (index t names) (kw, o, a, vs) = scan (sat o a vs) 0 (colv (index t names) kw).
 Proof. exact indexed_where_eq_scan. Qed.
 Print Assumptions indexed_query_eq_full_scan.
+
+(* several keyword conditions: the selection is the union - every row that satisfies at least one condition under the plain row-by-row evaluation,
+   once, in table order (sorted(set(...)) of the per-condition selections) *)
+Theorem where_with_several_conditions_is_the_union : forall t cs n, indexed_ok t -> cs <> [] ->
+  (forall c, In c cs -> cond_ok c /\ length (colv t (cond_col c)) = n) ->
+  selection t cs = filter (fun i => existsb (fun c => rowsat t c i) cs) (seq 0 n).
+Proof. exact selection_rowwise. Qed.
+Print Assumptions where_with_several_conditions_is_the_union.
+
+(* the index invariant is an order on rows: it holds exactly when the rows are sorted lexicographically by their index key *)
+Theorem invariant_is_lexicographic_order : forall t, (forall k, In k (idxs t) -> length (colv t k) = nrows t) ->
+  (indexed_ok t <-> lexsorted t (idxs t) 0 (nrows t)).
+Proof.
+  exact (fun t Hlen => conj
+    (fun Hok => ix_ok_lex t (idxs t) [(0, nrows t)] (fun x y H => match H with or_introl E => eq_ind (0, nrows t) (fun p => fst p <= snd p /\ snd p <= nrows t) (conj (Nat.le_0_l _) (le_n _)) (x, y) E | or_intror F => match F with end end) Hok 0 (nrows t) (or_introl eq_refl))
+    (fun Hlex => lex_ix_ok t (idxs t) [(0, nrows t)] Hlen (fun x y H => match H with or_introl E => eq_ind (0, nrows t) (fun p => fst p <= snd p /\ snd p <= nrows t) (conj (Nat.le_0_l _) (le_n _)) (x, y) E | or_intror F => match F with end end)
+       (fun x y H => match H with or_introl E => eq_ind (0, nrows t) (fun p => lexsorted t (idxs t) (fst p) (snd p)) Hlex (x, y) E | or_intror F => match F with end end))).
+Qed.
+Print Assumptions invariant_is_lexicographic_order.
+
+(* a view: the rows any strictly increasing selection picks from an indexed table satisfy the invariant again, so a where on the result of a where
+   is decided by the same theorems *)
+Theorem views_keep_the_invariant : forall t sel, cols t <> [] -> (forall k, In k (idxs t) -> has_col t k = true) -> indexed_ok t ->
+  StronglySorted lt sel -> (forall i, In i sel -> i < nrows t) -> indexed_ok (take_rows t sel).
+Proof. exact (fun t sel H => take_rows_keeps_invariant t H sel). Qed.
+Print Assumptions views_keep_the_invariant.
+
+(* where of where: exactly the rows, in table order, that satisfy (some condition of the first call) and (some condition of the second) *)
+Theorem where_of_where_is_the_conjunction : forall t cs1 cs2, cols t <> [] -> (forall k, In k (idxs t) -> has_col t k = true) -> indexed_ok t ->
+  conds_ok t cs1 -> conds_ok t cs2 ->
+  where_ (where_ t cs1) cs2 = take_rows t (filter (fun i => anysat t cs1 i && anysat t cs2 i) (seq 0 (nrows t))).
+Proof. exact (fun t cs1 cs2 H => where_of_where t H cs1 cs2). Qed.
+Print Assumptions where_of_where_is_the_conjunction.
+
+(* groupby(level): the groups chain-partition the rows, report the key prefix and size of each run, and two rows are in the same group
+   exactly when they agree on the first `level` index columns *)
+Theorem groupby_partitions_by_index_prefix : forall t level k, indexed_ok t -> NoDup (idxs t) -> nth_error (idxs t) level = Some k ->
+  exists runs, lohis_of t k = Some runs /\ chain 0 (nrows t) runs /\
+    groupby t level = map (fun r => (key t (firstn level (idxs t)) (fst r), snd r - fst r)) runs /\
+    forall i i', i < nrows t -> i' < nrows t -> (same_run runs i i' <-> key t (firstn level (idxs t)) i = key t (firstn level (idxs t)) i').
+Proof. exact groupby_partitions. Qed.
+Print Assumptions groupby_partitions_by_index_prefix.
+
+Example where_where_example :
+  let t := index {| cols := [(1, [Some 3; Some 1; None; Some 1]); (2, [Some 5; Some 9; Some 2; Some 4])]; idxs := [] |}%Z [1; 2]%Z in
+  cols (where_ (where_ t [(1%Z, OLe, Some 3%Z, [])]) [(2%Z, OGe, Some 5%Z, []); (2%Z, OEq, Some 4%Z, [])]) = [(1, [Some 1; Some 1; Some 3]); (2, [Some 4; Some 9; Some 5])]%Z /\
+  groupby t 1 = [([Some 1%Z], 2); ([Some 3%Z], 1); ([None], 1)].
+Proof. vm_compute. split; reflexivity. Qed.
 
 Example index_example :
   let t := {| cols := [(1, [Some 3; Some 1; None; Some 1]); (2, [Some 5; Some 9; Some 2; Some 4])]; idxs := [] |}%Z in
